@@ -174,6 +174,15 @@ func ruleQueueFifo(w *World, r *RuleResult) {
 						}
 					}
 				}
+				// an element copied into position j of an output list must itself move with the loop
+				for k := range p.Events {
+					st := &p.Events[k]
+					if st.Kind == "store" && st.LV.Op == "elem" && st.Val.Key() == e.LV.Key() && st.LV.A[1].contains(func(x *T) bool { return x.Op == "loopvar" }) {
+						if !idx.contains(func(x *T) bool { return x.Op == "loopvar" }) {
+							good = false
+						}
+					}
+				}
 				r.check(good, fn.Name()+"/relative-to-front", c.posOf(e), "reads (front + n) % capacity", fn.Name()+" reads the buffer at "+idx.Show()+", not relative to the front cursor")
 			}
 		}
